@@ -62,6 +62,11 @@ LiveFix(L, K, Ix, C) ==
       L2 == ReachP(L \cup more, {}, C)
   IN IF L2 = L /\ more = {} THEN [live |-> L, kept |-> K] ELSE LiveFix(L2, K \cup more, Ix, C)
 GCResult(C, T, Ix) == LiveFix(ReachP(Tagged(T), {}, C), {}, Ix \ Tagged(T), C)
+\* Which of the kept referrers GC re-lists in the index is decided in one pass over the old entries in no particular
+\* order: a referrer whose subject chain reaches the graph of the tagged nodes is always listed (GCIndexLower); one
+\* whose subject is reachable only through another kept referrer's content may or may not be (it stays in blobs/
+\* either way, being reachable).  The index after GC lies between GCIndexLower and Tagged \cup kept.
+GCIndexLower(C, T, Ix) == Tagged(T) \cup {r \in Ix \ Tagged(T) : SubjectChainHits(r, ReachP(Tagged(T), {}, C), C)}
 
 EmptyTags == [r \in Refs |-> 0]
 IsOci == g.kind = "oci"
